@@ -151,6 +151,14 @@ def decide(prop: str, vres: dict, kani: dict, tier: str, seed: int, t0: float, m
             if f.get('fn') in fns_serving or f.get('fn') is None:
                 undecided.append('unsupported construct in %s: %s' % (f.get('fn'), f['message'][:120]))
             continue
+        so = f.get('site_origin') or []
+        if len(so) >= 2 and so[0] == 'inj' and so[1] in ('proof', 'loop-body-start', 'loop-body-end') and not (f.get('label') or '').startswith('C'):
+            # a step of an injected proof (ghost assert / lemma precondition) no longer verifies: the proof is incomplete, which is
+            # "undecided" for every property this function serves -- never an alarm (Verus assumes the failed step afterwards, so
+            # the function's other obligations are not trustworthy either)
+            if f.get('fn') in fns_serving:
+                undecided.append('proof hint no longer verifies in %s: %s' % (f.get('fn'), (f.get('site_text') or '')[:100]))
+            continue
         ps, why = failure_props(f, fi)
         if prop not in ps:
             continue
